@@ -132,6 +132,20 @@ CLAIMED = {
         "note": "Trusted: the models in props/c12.py (from usage texts and reference-verbs.md examples). sub/gsub/ssub/case are compared under -S (the functions are defined on strings). reorder -b/-a/-r and case -s/-t are not covered.",
         "design_ref": "DESIGN.md section 4 C12",
     },
+    "C10": {
+        "level": "exploration",
+        "technique": "property-based testing: Hypothesis-generated streams against first-principles recomputation with exact rational arithmetic (model-based), plus conservation laws",
+        "text": ("Generated streams (0-14 records; group fields with join-collision texts a,bc/ab,c; ints, dyadic and decimal floats, constant groups, missing "
+                 "group/value fields) through stats1 (count,sum,mean,min,max,var,stddev,meaneb,mode,antimode,distinct_count,minlen,maxlen,median,pN incl. fractional, "
+                 "-i), merge-fields (-f/-c/-k, percentiles over several records), count, count-distinct (-u,-n), count-similar, uniq -c/-n/-a -c, step "
+                 "(counter,delta,rsum,from-first,shift; shift_lag/lead_n), fraction (-p,-c,-g), histogram, most/least-frequent, fill-down (-f,-a,--all), top, and "
+                 "the DSL functions count/sum/mean/variance/stddev/meaneb/minlen/maxlen/distinct_count/mode/null_count/percentiles/sort_collection, at batch sizes "
+                 "1/3/500. Exact for counts, sums, extrema, modes and order statistics; moments to 1e-9 on the variance scale and never negative/NaN; groups in "
+                 "first-appearance order with exact texts; counts add up."),
+        "note": ("Clean domain only (numeric values, |x| <= 1e4). What delta/shift give right after a record lacking the value field is undocumented and not "
+                 "asserted. Percentile cases with p*n/100 within 1e-9 of an integer for fractional p are skipped. stats1 -s/-w, ewma, slwin, mad, skewness, kurtosis not yet covered."),
+        "design_ref": "DESIGN.md section 4 C10",
+    },
 }
 
 NOT_YET = "check not built yet in this session (see DESIGN.md section 8 build order); will be claimed when its sub-checks run"
